@@ -1210,6 +1210,31 @@ def _facts_at(self, pos, _depth=0):
     # (unless written in between)
     seen = set()
     for rel in list(out):
+        if rel[0] == 'bool' and deep_strip(rel[1])[0] == 'var' and deep_strip(rel[1]) not in seen:
+            # a boolean assigned on several paths (the result of an inlined predicate helper): constants of the other truth value
+            # are out; if one definition remains, control came through it and (when it is a condition) it had this truth value
+            bt = deep_strip(rel[1])
+            cs = self.phi_candidates(bt)
+            if cs:
+                live = [(dp, deep_strip(d)) for dp, d in cs if not (deep_strip(d)[0] == 'const' and bool(deep_strip(d)[1]) != rel[2])]
+                if len(live) == 1:
+                    seen.add(bt)
+                    dpos, dterm = live[0]
+                    stops = {dp[0] for (dp, _k, _pl) in self.defs(bt[1])}
+                    carried = list(_facts_at(self, dpos, _depth + 1))
+                    if dterm[0] != 'const':
+                        carried.extend(rels_of_bool(dterm, rel[2]))
+                    for r2 in carried:
+                        parts = set()
+                        for x in r2[1:]:
+                            if isinstance(x, tuple):
+                                parts |= _mutable_parts(x, self)
+                        parts = {p_ for p_ in parts if not (p_[0] == 'var' and p_[1] == bt[1])}
+                        if _writes_between(self, dpos[0], pos, parts, None, tuple(sorted(stops))):
+                            continue
+                        if r2 not in out:
+                            out.append(r2)
+            continue
         if rel[0] != 'discr':
             continue
         t, v = deep_strip(rel[1]), rel[2]
